@@ -340,7 +340,13 @@ def _concrete_env():
     def wf(S):
         return all(sf.factor.metadata.spans_intercept for t in S for sf in t.factors if sf.reduced)
 
-    return {"cover": cover, "atoms": atoms, "disjoint": disjoint, "wf": wf}
+    def all_atoms(Y):
+        out = set()
+        for y in Y:
+            out |= atoms(y[1])
+        return out
+
+    return {"cover": cover, "atoms": atoms, "disjoint": disjoint, "wf": wf, "all_atoms": all_atoms}
 
 
 def workloads():
@@ -355,9 +361,190 @@ def workloads():
 
 def run_proofs(ctx):
     reg, cs = build()
-    ctx.assume("C03 abstraction: column space of a scoped term = direct sum of pure-interaction subspaces over its atoms {A : R <= A <= F} (argued in DESIGN.md, "
-               "validated numerically by the bounded driver, not mechanised)",
+    ctx.assume("C03 abstraction: column space of a scoped term = direct sum of pure-interaction subspaces over its atoms {A : R u (F minus spanning) <= A <= F} (argued in "
+               "DESIGN.md, validated numerically by the bounded driver, not mechanised)",
                "A-wf(ScopedTerm): a scoped term holds each evaluated factor at most once (obligation at every construction site in the verified function); "
                "ScopedTerm modelled modulo its __eq__ (proved in vf/proofs/small.py); finite-set cardinality lemma |F\\\\C|=1 and |F|-1=|C| imply C subset of F",
-               "the recursive call of _simplify_scoped_terms is replaced by its own contract (partial correctness)")
+               "the recursive call of _simplify_scoped_terms is replaced by its own contract (partial correctness)",
+               "_get_scoped_terms_spanned_by_evaled_factors is an ASSUMED contract in the proof of _get_scoped_terms: duplicate-free atomic scoped terms with pairwise "
+               "distinct atoms, reduced only where the factor spans the intercept (its body - itertools.product over tuples of mixed arity - is bounded only)")
     run_contracts(ctx, cs, reg, workloads=workloads(), concrete_env=_concrete_env())
+    reg2, cs2 = build_loop()
+    run_contracts(ctx, cs2, reg2, workloads=workloads(), concrete_env=_concrete_env())
+
+
+# =====================================================================================================================================
+# `_get_scoped_terms` (ensure_full_rank=True): the bookkeeping loop.  What is proved, for every list of terms and every factor cache:
+#   * one yield per term, in order;
+#   * the scoped terms yielded for one term have pairwise disjoint covers, and cover nothing that an EARLIER yield covers
+#     (structural full rank: no atom is covered twice, within or across formula terms);
+#   * what has been emitted is exactly what the `spanned` set records (the invariant that makes `- spanned` the right thing to subtract).
+# `_get_scoped_terms_spanned_by_evaled_factors` is an ASSUMED contract here (its body enumerates itertools.product over a list of tuples of
+# mixed arity; bounded only): it returns duplicate-free ATOMIC scoped terms (cover = one atom), reduced only where the factor spans the
+# intercept, with pairwise distinct atoms.
+# =====================================================================================================================================
+from vf.pyvc.types import TDict, TOpt, TRec, TStr, TTup  # noqa: E402
+
+TERMG = TObj("TermG")
+
+FACTG = TRec("FactorG", {"expr": TStr}, ["expr"])
+YIELD = TTup(TERMG, TSeq(STERM))
+SETST = TSet(STERM)
+ALL = z3.Function("all_atoms", TSeq(YIELD).sort(), ATOMSET.sort())              # union of atoms(y[1]) over the yields so far
+SETATOMS = z3.Function("set_atoms", SETST.sort(), ATOMSET.sort())                # union of the covers of the members of a set of scoped terms
+ATOMIC = z3.Function("all_atomic", SETST.sort(), z3.BoolSort())                  # every member covers exactly one atom and is reduced only where spanning
+TERM_FACTORS = z3.Function("term_factors", TERMG.sort(), TSeq(FACTG).sort())
+VALUES_PRESENT = z3.Function("values_present", EF.sort(), z3.BoolSort())
+
+
+def loop_axioms():
+    thY = SQ.theory(YIELD.sort())
+    th = SQ.theory(STERM.sort())
+    Y = z3.Const("ga!Y", thY.S)
+    y = z3.Const("ga!y", YIELD.sort())
+    P, Q = z3.Consts("ga!P ga!Q", SETST.sort())
+    x = z3.Const("ga!x", STERM.sort())
+    A = z3.Const("ga!A", SETEF.sort())
+    S = z3.Const("ga!S", th.S)
+    snd = YIELD.sort().accessor(0, 1)
+    U = z3.SetUnion
+    E0 = z3.EmptySet(SETEF.sort())
+    return [
+        ALL(thY.Empty) == E0,
+        z3.ForAll([Y, y], ALL(thY.Build(Y, y)) == U(ALL(Y), UNION(snd(y))), patterns=[ALL(thY.Build(Y, y))]),
+        # set_atoms: definitional (membership)
+        z3.ForAll([P, x], z3.Implies(z3.IsMember(x, P), z3.IsSubset(COVER(x), SETATOMS(P))), patterns=[z3.MultiPattern(z3.IsMember(x, P), SETATOMS(P))]),
+        z3.ForAll([P, A], z3.Implies(z3.IsMember(A, SETATOMS(P)), z3.Exists([x], z3.And(z3.IsMember(x, P), z3.IsMember(A, COVER(x))), patterns=[z3.IsMember(x, P)])),
+                  patterns=[z3.IsMember(A, SETATOMS(P))]),
+        # all_atomic: definitional
+        z3.ForAll([P], ATOMIC(P) == z3.ForAll([x], z3.Implies(z3.IsMember(x, P), z3.And(z3.IsSubset(R_(x), SPAN), z3.SetUnion(R_(x), z3.SetDifference(F_(x), SPAN)) == F_(x))),
+                                                patterns=[z3.IsMember(x, P)]), patterns=[ATOMIC(P)]),
+    ]
+
+
+def quotient_axiom():
+    x, y = z3.Consts("qa!x qa!y", STERM.sort())
+    # A-eq: a scoped term is determined by its scoped factors (ScopedTerm.__eq__, proved in vf/proofs/small.py)
+    return [z3.ForAll([x, y], z3.Implies(z3.And(F_(x) == F_(y), R_(x) == R_(y)), x == y), patterns=[z3.MultiPattern(F_(x), F_(y))])]
+
+
+def diff_lemma():
+    """for atomic scoped terms (one atom each, determined by F), removing the members of P from S removes exactly the atoms P covers"""
+    th = SQ.theory(STERM.sort())
+    S, r = z3.Consts("dl!S dl!r", th.S)
+    P = z3.Const("dl!P", SETST.sort())
+    x = z3.Const("dl!x", STERM.sort())
+    atomic_x = lambda t: z3.And(z3.IsSubset(R_(t), SPAN), z3.SetUnion(R_(t), z3.SetDifference(F_(t), SPAN)) == F_(t))
+    prem = [ATOMIC(P), z3.ForAll([x], z3.Implies(th.Has(S, x), atomic_x(x)), patterns=[th.Has(S, x)]),
+            z3.ForAll([x], th.Has(r, x) == z3.And(th.Has(S, x), z3.Not(z3.IsMember(x, P))), patterns=[th.Has(r, x), th.Has(S, x)])]
+    goal = z3.And(UNION(r) == z3.SetDifference(UNION(S), SETATOMS(P)),
+                  z3.SetIntersect(UNION(r), SETATOMS(P)) == z3.EmptySet(SETEF.sort()))
+    ax, la = atoms_axioms(), loop_axioms()
+    return dict(name="atomic-difference", text="atoms(S - P) == atoms(S) - set_atoms(P) for atomic scoped terms", premises=prem, goal=goal,
+                uses=[ax[0], ax[5], ax[6], la[2], la[3], la[4]] + quotient_axiom(),
+                closed=z3.ForAll([S, r, P], z3.Implies(z3.And(*prem), goal), patterns=[z3.MultiPattern(UNION(r), UNION(S), SETATOMS(P))]))
+
+
+def setunion_lemma():
+    """set_atoms(P | set(S)) == set_atoms(P) | atoms(S)"""
+    th = SQ.theory(STERM.sort())
+    S = z3.Const("su!S", th.S)
+    P, Q = z3.Consts("su!P su!Q", SETST.sort())
+    x = z3.Const("su!x", STERM.sort())
+    prem = [z3.ForAll([x], z3.IsMember(x, Q) == z3.Or(z3.IsMember(x, P), th.Has(S, x)), patterns=[z3.IsMember(x, Q), z3.IsMember(x, P), th.Has(S, x)])]
+    goal = SETATOMS(Q) == z3.SetUnion(SETATOMS(P), UNION(S))
+    ax, la = atoms_axioms(), loop_axioms()
+    return dict(name="set-atoms-update", text="set_atoms(P | set(S)) == set_atoms(P) | atoms(S)", premises=prem, goal=goal, uses=[ax[5], ax[6], la[2], la[3]],
+                closed=z3.ForAll([S, P, Q], z3.Implies(z3.And(*prem), goal), patterns=[z3.MultiPattern(SETATOMS(Q), SETATOMS(P), UNION(S))]))
+
+
+def loop_lemma_axioms():
+    return loop_axioms() + quotient_axiom() + [diff_lemma()["closed"], setunion_lemma()["closed"]]
+
+
+def build_loop():
+    reg = Registry()
+    cs = []
+    thS = SQ.theory(STERM.sort())
+    reg.methods[("STerm", "factors")] = st_factors
+    SPANNED_BY = z3.Function("spanned_by", TSeq(EF).sort(), TSeq(STERM).sort())
+    atomic_x = lambda t: z3.And(z3.IsSubset(R_(t), SPAN), z3.SetUnion(R_(t), z3.SetDifference(F_(t), SPAN)) == F_(t))
+
+    def n_spanned_by(eng, args, kw, n, st):
+        """assumed contract of _get_scoped_terms_spanned_by_evaled_factors (see the banner above)"""
+        efs = args[-1]
+        eng.uses_axioms(loop_lemma_axioms)
+        eng.uses_axioms(lemma_axioms)
+        r = V(TSeq(STERM, nodup=True), SPANNED_BY(efs.t))
+        x = z3.Const("sb!x", STERM.sort())
+        i, j = z3.Ints("sb!i sb!j")
+        st.assume(z3.ForAll([x], z3.Implies(thS.Has(r.t, x), atomic_x(x)), patterns=[thS.Has(r.t, x)]))
+        st.assume(z3.ForAll([i, j], z3.Implies(z3.And(0 <= i, i < j, j < thS.Len(r.t)), thS.At(r.t, i) != thS.At(r.t, j)), patterns=[z3.MultiPattern(thS.At(r.t, i), thS.At(r.t, j))]))
+        st.assume(WF(r.t))
+        st.assume(DISJ(r.t))
+        return r
+
+    def ef_values(eng, args, kw, n, st):
+        return V(TObj("FValuesG"), z3.Function("ef_values", EF.sort(), TObj("FValuesG").sort())(args[0].t))
+
+    ef_values.is_property = True
+
+    def fv_wrapped(eng, args, kw, n, st):
+        oty = TOpt(TObj("RawG"))
+        return V(oty, z3.Function("fv_wrapped", TObj("FValuesG").sort(), oty.sort())(args[0].t))
+
+    fv_wrapped.is_property = True
+
+    def term_factors(eng, args, kw, n, st):
+        return V(TSeq(FACTG), TERM_FACTORS(args[0].t))
+
+    term_factors.is_property = True
+    reg.methods[("EvaluatedFactor", "values")] = ef_values
+    reg.methods[("FValuesG", "__wrapped__")] = fv_wrapped
+    reg.methods[("TermG", "factors")] = term_factors
+    reg.methods[("FormulaMaterializer", "_get_scoped_terms_spanned_by_evaled_factors")] = n_spanned_by
+    _, simp = build()
+    simplify = simp[0]
+    reg.methods[("FormulaMaterializer", "_simplify_scoped_terms")] = simplify
+
+    def sp_all(eng, args, kw, n, st):
+        eng.uses_axioms(loop_lemma_axioms)
+        return V(ATOMSET, ALL(args[0].t))
+
+    def sp_setatoms(eng, args, kw, n, st):
+        eng.uses_axioms(loop_lemma_axioms)
+        return V(ATOMSET, SETATOMS(args[0].t))
+
+    def sp_atomic(eng, args, kw, n, st):
+        eng.uses_axioms(loop_lemma_axioms)
+        return V(TBool, ATOMIC(args[0].t))
+
+    env = dict(ENV)
+    env.update({"all_atoms": sp_all, "set_atoms": sp_setatoms, "all_atomic": sp_atomic})
+    NOOVERLAP = ("forall(lambda k: implies(0 <= k and k < len({0}), disjoint({0}[k][1]) and all_atoms({0}[:k]) & atoms({0}[k][1]) == set()), "
+                 "trigger=lambda k: {0}[k])")
+    c = Contract(
+        B + "_get_scoped_terms",
+        params={"self": {"__class__": "FormulaMaterializer", "factor_cache": TDict(TStr, EF)}, "terms": TSeq(TERMG), "ensure_full_rank": "Bool"},
+        returns=TSeq(YIELD), yields=YIELD, spec_env=env, globals={"ScopedTerm": PyConst("ScopedTerm"), "ScopedFactor": PyConst("ScopedFactor")},
+        axioms=[sterm_axioms, atoms_axioms, lemma_axioms, loop_lemma_axioms, lambda: stdlib.seq_axioms(STERM)],
+        local_types={"spanned": SETST},
+        requires=["ensure_full_rank", "forall(lambda i, j: implies(0 <= i and i < len(terms) and 0 <= j and j < len(terms[i].factors), terms[i].factors[j].expr in self.factor_cache))"],
+        loops={0: {"inv": [
+            "len(_yielded) == _i",
+            "forall(lambda k: implies(0 <= k and k < _i, _yielded[k][0] == terms[k]), trigger=lambda k: _yielded[k])",
+            "all_atoms(_yielded) == set_atoms(spanned)",            # emitted == recorded
+            "all_atomic(spanned)",
+            NOOVERLAP.format("_yielded"),
+        ]}},
+        ensures=[
+            "len(result) == len(terms)",
+            "forall(lambda k: implies(0 <= k and k < len(terms), result[k][0] == terms[k]), trigger=lambda k: result[k])",
+            # structural full rank: the scoped terms of one formula term do not overlap, and cover nothing an earlier term's scoped terms cover
+            NOOVERLAP.format("result"),
+        ],
+        modifies=[], props=["C03"])
+    c.label = "ensure_full_rank"
+    c.derived_lemmas = [diff_lemma, setunion_lemma]
+    cs.append(reg.add(c))
+    return reg, cs
